@@ -298,6 +298,19 @@ fn run_case(seed: u64, index: u64, set: usize, perm: u64, mode: u32, rep: &mut R
             Obj::DirectFd => {
                 dfd_dropped_after_ring = ring_dropped;
                 alloc::a10(|| drop(o.dfd.take()));
+                if let Some(r) = o.ring.as_mut() {
+                    let _ = alloc::consumer(|| r.poll(Some(Duration::ZERO)));
+                }
+                let mut k = simk::k();
+                k.sync_fd_events();
+                if k.rings.contains_key(&ring_fd) {
+                    let open: Vec<u64> = k.direct_files.iter().filter(|(_, o)| **o).map(|(d, _)| *d).collect();
+                    drop(k);
+                    if !open.is_empty() {
+                        let when = if ring_dropped { "after-ring" } else { "before-ring" };
+                        viol(rep, seed, index, format!("direct-descriptor-not-closed:dropped-{when}"), format!("the direct AsyncFd was dropped ({when} was dropped, other handles keep the io_uring alive) but its slot is still installed"), &desc, &trace);
+                    }
+                }
             }
             Obj::OpFresh => alloc::a10(|| drop(o.op_fresh.take())),
             Obj::OpQueued => alloc::a10(|| drop(o.op_queued.take())),
